@@ -8,6 +8,7 @@ import scipy.sparse as sp
 from hypothesis import strategies as st
 
 from vlib import util
+from vlib import defaults
 from vlib.core import Part
 
 PROPERTY = "C04"
@@ -432,4 +433,7 @@ PARTS = [
     # coverage-guided (atheris / libFuzzer) tier over the same strategy and oracle
     Part("fuzz_files", oracle, strategy=files, quick=(2, 250), thorough=(8, 20000),
          fuzz=dict(modules=["pyyeti.nastran.op4"], time=30, time_thorough=400), tmax_thorough=600),
+    # documented defaults: leaving a keyword out = passing its documented value (vlib/defaults.py)
+    Part("defaults", defaults.make_oracle("C04"), enum=defaults.make_enum(), quick=(1, None), thorough=(1, None),
+         exhaustive=True),
 ]
